@@ -225,6 +225,14 @@ def run(ctx):
         r8.check(ok, "in-step:" + key, okmsg, failmsg + " - from then on the status byte pgcat sees belongs to the previous request: after a client's BEGIN the connection looks idle and is released inside the open transaction")
     for key, ok, okmsg, failmsg in own_request_findings(F)[0]:
         r8.check(ok, "in-step:" + key, okmsg, failmsg)
+    # ... the client path included: a reply to CopyDone taken in one piece (round 11) leaves the rest of `COPY ..; SELECT <many rows>` unread while the COPY's
+    # CommandComplete has already cleared in_copy_mode and in_transaction still says idle - the release test fires in the middle of the client's reply
+    from common import handle_receive_site_findings
+    hrs = handle_receive_site_findings(F)
+    if not hrs:
+        r8.missing("receive_server_message sites of Client::handle")
+    for key, ok, okmsg, failmsg, where in hrs:
+        r8.check(ok, "in-step:" + key, okmsg, failmsg + " - released in the middle of its transaction's reply, the connection serves the next client while the first one's statement is still being answered", where)
     # what in_transaction says *is* the status byte: cleared for 'I' only (round 10: 'I' | 'E' folded into one arm)
     from common import ready_for_query_status_findings
     rfq = ready_for_query_status_findings(F)
